@@ -66,8 +66,15 @@ fn run_case(ctx: &Ctx, s: &Shape, st: &Stats) {
         let offs = calculate_block_offsets(&data, &cfg);
         let mut dec = Decoder::new(cfg);
         let mut out = None;
-        for p in pk.iter().cloned() {
-            out = dec.decode(p);
+        // both entry points of the decoder, alternating by configuration (and mixed for every third one)
+        let mode = s.hash() % 3;
+        for (i, p) in pk.iter().cloned().enumerate() {
+            out = if mode == 0 || (mode == 2 && i % 2 == 0) {
+                dec.decode(p)
+            } else {
+                dec.add_new_packet(p);
+                dec.get_result()
+            };
         }
         (pk, offs, out)
     });
@@ -163,12 +170,12 @@ fn run_case(ctx: &Ctx, s: &Shape, st: &Stats) {
                         continue;
                     }
                     if out.is_none() {
-                        out = dec.decode(p);
+                        out = if s.hash() % 2 == 0 { dec.decode(p) } else { dec.add_new_packet(p); dec.get_result() };
                     }
                 }
                 for p in be.repair_packets(rng.below(1000) as u32, 4) {
                     if out.is_none() {
-                        out = dec.decode(p);
+                        out = if s.hash() % 2 == 0 { dec.decode(p) } else { dec.add_new_packet(p); dec.get_result() };
                     }
                 }
             }
